@@ -23,6 +23,7 @@ import (
 	"rcproxy/core"
 	"rcproxy/core/authip"
 	"rcproxy/core/codec"
+	"rcproxy/core/pkg/constant"
 	"rcproxy/core/pkg/logging"
 )
 
@@ -222,6 +223,16 @@ func (ls *listenServer) OnMoved(addr string, slot int32, s core.SConn, f *core.F
 
 	delete(f.Peer.Fd2Slot, s.Fd())
 	f.Peer.Fd2Slot[sConn.Fd()] = slot
+
+	// a node that is importing the slot serves it only to a request announced by ASKING on the same
+	// connection; otherwise it answers -MOVED back to the node that sent the -ASK and the request
+	// bounces between the two. The ASKING fragment has no owner: its +OK is consumed like the reply
+	// of a topology probe and reaches no client.
+	if f.Type == codec.RspAsk {
+		asking := core.FragPool.Get()
+		asking.Req = append(asking.Req, constant.ReqAsking...)
+		sConn.EnqueueOutFrag(asking)
+	}
 
 	sConn.EnqueueOutFrag(f)
 }
